@@ -19,6 +19,7 @@
 #include "vm.h"
 #include "vm_ffi.h"
 #include "../nanoisa/nvm_format.h"
+#include "../nanoisa/verifier.h"
 
 #include <stdio.h>
 #include <stdlib.h>
@@ -205,6 +206,17 @@ static void *client_thread(void *arg) {
 
         if (!module) {
             vmd_msg_send_error(fd, "Invalid .nvm format");
+            break;
+        }
+
+        /* Verify bytecode safety before execution, exactly as standalone nano_vm does */
+        NvmVerifyResult vr = nvm_verify(module);
+        if (!vr.ok) {
+            char vbuf[NVM_VERIFY_ERROR_SIZE + 64];
+            snprintf(vbuf, sizeof(vbuf), "Error: Bytecode verification failed: %s", vr.error_msg);
+            vmd_msg_send_error(fd, vbuf);
+            vmd_msg_send_exit(fd, 1);
+            nvm_module_free(module);
             break;
         }
 
